@@ -24,11 +24,13 @@ from common import Ctx, run_driver, frac
 from translate import graph as graph_tr
 
 PROP = "C18"
-LEAN_MODULE = "TopSearch.Props.C18"
-LEAN_FILES = ["TopSearch.Props.C18", "TopSearch.Lemmas.Graph", "TopSearch.Model.Graph"]
+LEAN_MODULE = "TopSearch.Props.C18Minimax"
+LEAN_FILES = ["TopSearch.Props.C18", "TopSearch.Props.C18Minimax", "TopSearch.Lemmas.Graph", "TopSearch.Model.Graph"]
 EXTRA_TARGETS = ["TopSearch.Gen.Graph", "TopSearch.Model.Batch"]
 _P = "TopSearch.Props.C18."
 REQUIRED = [_P + n for n in [
+    "C18_connAt_iff_walk", "C18_minimax_is_min_over_walks", "C18_minimax_exists", "C18_minimax_unique",
+    "C18_height_of_connected",
     "C18_bridge_cfg",
     "reach_iff",
     "C18_argmin_first",
@@ -60,9 +62,7 @@ ASSUMPTIONS = [
 ]
 TRUSTED_EXTRA = ["oracle contracts: nx-components (= reachability), np.argmin first-on-ties, np.exp >= 0"]
 PARTIAL = ("theorems are exact-arithmetic; binary64 rounding of the scan thresholds is observed by the "
-           "correspondence only (exact on dyadic windows, tolerance elsewhere); the minimax value is "
-           "characterised as the least threshold at which a path of transition states <= threshold "
-           "exists (C18_conn_iff_path), not as an explicit min-over-paths-of-max term")
+           "correspondence only (exact on dyadic windows, tolerance elsewhere)")
 
 
 def regenerate(ctx: Ctx) -> None:
